@@ -454,6 +454,16 @@ pub fn judge(r: &DuoRun, cfg: &OracleCfg, o: &mut Outcome) -> (WireModel, EndInf
             if e.contains("Closed") && !closed_ok {
                 o.violate("C08:spurious-closed", format!("stream {tag}: new_stream_channel returned Closed on a live connection"));
             }
+            // FlowIdRejected means: the peer rejected `max_flow_id_retries` proposals. A request that
+            // was merely pending when the connection ended must report Closed.
+            if e.contains("FlowIdRejected") && cfg.accountant {
+                let retries = plan.eps[opener].retries.max(1);
+                let rejected = wm.insts.iter().filter(|x| x.tag == Some(tag) && x.rejected.is_some()).count();
+                if rejected < retries {
+                    let msg = format!("stream {tag}: new_stream_channel at endpoint {opener} failed with FlowIdRejected although the peer rejected only {rejected} of its proposals (max_flow_id_retries = {retries}){}", if closed_ok { "; the connection ended while the request was pending: Closed is the answer" } else { "" });
+                    o.violate(if closed_ok { "C08:open-wrong-error" } else { "C07:rejected-without-rejections" }, msg);
+                }
+            }
         }
     }
     // ---------------------------------------------------------- local drop on a healthy transport: a surviving
